@@ -93,6 +93,13 @@ def run(ck: Check, prog: Program) -> None:
     _c06._empty_batch_request(ck, _c06.model_program(prog))
     from .c04 import _bind_strict, bind_methods, validate_always
     _bind_strict(ck, prog)
+    # "a document that is not a valid request is answered -32600": the deserialisers raise DeserializationError and nothing else — a
+    # member that may be an array / object is never hashed (set / dict membership) before its type is known
+    _mp = _c06.model_program(prog)
+    for q_ in ('pjrpc.common.v20.Request.from_json', 'pjrpc.common.v20.BatchRequest.from_json'):
+        hf_ = _mp.func(q_)
+        ck.functions.add(hf_.qualname)
+        _c06._hash_uses(ck, _mp, hf_)
     # ... on every path: a binder that skips the validation for some params (empty, omitted) lets a call with missing required
     # arguments reach the method, which then fails with -32000 instead of -32602
     for b_ in bind_methods(prog):
